@@ -161,8 +161,8 @@ def jobs(tier):
         js.append(l2_job("C19.tick.restart%d" % n, "l2/c19_tickrestart.c", defines={"RESTARTS": n, "VF_LOGN": 8},
                          symbolic=["quit code (uint8)", "errno left by callbacks (int)"],
                          bounds="tick configured, loop stopped and restarted %d time(s), one expiry per run" % n, unwind=13))
-    for sc in (0, 1, 2, 3):
-        js.append(l2_job("C19.extra.%s" % ("selfdereg-in-stop", "overlapping-subs", "selfpause-in-start", "tick-from-start")[sc], "l2/c19_extra.c",
+    for sc in (0, 1, 2, 3, 4):
+        js.append(l2_job("C19.extra.%s" % ("selfdereg-in-stop", "overlapping-subs", "selfpause-in-start", "tick-from-start", "dereg-other-in-flush")[sc], "l2/c19_extra.c",
                          defines={"SCEN": sc, "VF_LOGN": 8}, symbolic=["errno left by callbacks (int)"],
                          bounds="scenario %d" % sc, unwind=13))
     return js
